@@ -138,6 +138,10 @@ func finishAction(r *core.Rng, p Profile, g *genState, q int) Action {
 // nextAction chooses an action that makes sense in the observable state.
 func nextAction(r *core.Rng, p Profile, cfg []Hook, last *StepObs, g *genState) (Action, bool) {
 	if !g.booted {
+		if !g.stopped && p.PStop > 0 && r.Chance(6) {
+			g.stopped = true // Shutdown() requested before Start() has created the queues
+			return Action{Kind: "Stop"}, true
+		}
 		g.booted = true
 		return Action{Kind: "Boot"}, true
 	}
